@@ -148,7 +148,10 @@ class Array(Environment):
             colnum = 1
             for cell in cells:
                 if colnum < start or colnum > end:
-                    colnum += 1
+                    if cell.attributes:
+                        colnum += cell.attributes.get('colspan', 1)
+                    else:
+                        colnum += 1
                     continue
                 cell.style['border-%s-style' % location] = 'solid'
                 cell.style['border-%s-color' % location] = 'black'
